@@ -423,7 +423,8 @@ def write_ev(prop, tier, seed, meta, results, rc, nviol, wall, known_hits):
         solver_s += st.get("solver_s", 0.0)
         for ch in p["checks"]:
             loc = ch.get("loc") or ""
-            if ch.get("fn") and re.match(r"^src/(crypto|cli|ffi)/src/", loc) and "verif_" not in ch["fn"]:
+            if (ch.get("fn") and re.match(r"^src/(crypto|cli|ffi)/src/", loc) and ":0:0 " not in loc and "verif_" not in ch["fn"]
+                    and not re.match(r"^<?(alloc|core|std|kani|anyhow|orion|zeroize|ct_codecs)::", ch["fn"])):
                 funcs.add(ch["fn"])
         for s in p.get("stubs", []):
             stubs.add(re.sub(r"\s+", "", s))
